@@ -277,7 +277,7 @@ def gen_params(rng, n=None, allow_bool=True, types=None, pos_types=None):
             ty = rng.choice(pos_types or (SINGLE_TOKEN * 4 + ["Tuple[int, str]", "N", "Optional[int]", "List[int]", "bool"]))
         else:
             ty = rng.choice(types + (["N"] if not have_dc else []))
-        if ty == "bool" and (not allow_bool or rng.random() < 0.6):
+        if ty == "bool" and (not allow_bool or rng.random() < 0.2):
             ty = "int"
         if ty == "N":
             if have_dc:
@@ -657,7 +657,7 @@ def gen(rng, tier):
     n_main = 260 if q else 6000
     for i in range(n_main):
         r = rng.random()
-        c = gen_main_case(rng, malformed=r < 0.15, allow_bool=r > 0.5)
+        c = gen_main_case(rng, malformed=r < 0.15, allow_bool=r > 0.2)
         yield {"op": "call.main", "case": c}
         if i % 3 == 0:
             yield {"op": "call.fields", "case": {k: v for k, v in c.items()}}
@@ -1021,17 +1021,8 @@ def impl_cache(c):
         return {"ids": ids, "fields": fields}
 
 
-def _c(case):
-    """the case payload; a known-finding replay file ({"op", "case": {"op", "case"}}, readable both as a corpus entry and
-    by `./check C20 --replay`) is unwrapped"""
-    c = case["case"]
-    if isinstance(c, dict) and set(c) == {"op", "case"}:
-        return c["case"]
-    return c
-
-
 def impl(case):
-    op, c = case["op"], _c(case)
+    op, c = case["op"], case["case"]
     return {"call.keep": impl_keep, "call.infer": impl_infer, "call.bind": impl_bind, "call.fields": impl_fields,
             "call.main": impl_main, "call.config": impl_config, "call.partial": impl_partial,
             "call.cache": impl_cache}[op](c)
@@ -1056,7 +1047,7 @@ def _cache_key(call):
 
 
 def model_case(case, obs):
-    op, c = case["op"], _c(case)
+    op, c = case["op"], case["case"]
     if op == "call.keep":
         return {"keys": c["keys"], "action": c["action"]}
     if op == "call.infer":
@@ -1128,7 +1119,7 @@ def _has_bool_param(c):
 
 
 def oracle(case, obs):
-    op, c = case["op"], _c(case)
+    op, c = case["op"], case["case"]
     fails = []
     if op == "call.keep":
         # stock action: nothing the constructor does not take survives; custom action: nothing is filtered
@@ -1265,20 +1256,11 @@ def oracle(case, obs):
 # ------------------------------------------------------------------------------------------------
 
 
-def _d4(case, obs, fail):
-    """D4: `main` passes `name=` as a custom argparse argument; a `bool` parameter's BooleanOptionalAction rejects it."""
-    if case["op"] not in ("call.main", "call.fields"):
-        return False
-    front = fail.get("front") or {}
-    return (_has_bool_param(_c(case)) and front.get("o") == "raise" and front.get("exc") == "TypeError"
-            and "unexpected keyword argument 'name'" in (front.get("msg") or ""))
-
-
-FINDINGS = {"C20-main-bool-name-kwarg": _d4}
+FINDINGS = {}
 
 
 def nontrivial(case, obs):
-    op, c = case["op"], _c(case)
+    op, c = case["op"], case["case"]
     if op == "call.main":
         return len(c["params"]) >= 2 and len(obs["argv"]) > 0
     if op == "call.fields":
@@ -1297,7 +1279,7 @@ def nontrivial(case, obs):
 
 
 def tags(case, obs):
-    op, c = case["op"], _c(case)
+    op, c = case["op"], case["case"]
     t = [f"op:{op}"]
     if op in ("call.main", "call.fields"):
         t.append(f"n:{len(c['params'])}")
@@ -1334,7 +1316,7 @@ def tags(case, obs):
 
 
 def shrink(case):
-    op, c = case["op"], _c(case)
+    op, c = case["op"], case["case"]
     if op in ("call.main", "call.fields"):
         ps = c["params"]
         if len(ps) > 1:
@@ -1373,11 +1355,12 @@ def shrink(case):
 
 
 MANIFEST = {
-    "text": ("Proof, partial (named gap: D4, a `bool` parameter through `main`). Lean theorems over the model of "
+    "text": ("Proof, full (D4 repaired in a47a1e0). Lean theorems over the model of "
              "decorators.main / config_for / Partial.__call__ / only_keep_action_args: for every legal signature (any "
              "length) the call made by `main` binds every parameter to the value parsed for it, positional-only parameters "
              "positionally in signature order (stable-sort lemma) and all others by keyword; `main` adds no set-up failure "
-             "of its own for signatures without a BooleanOptionalAction field (full statement refuted by the D4 witness); "
+             "of its own for any supported parameter type including bool (the synthesised class sets up exactly when the "
+             "equivalent dataclass does); "
              "config_for yields exactly one field per non-ignored typed parameter with the override/signature default "
              "(exact list characterisation); Partial.__call__ passes field values with explicit kwargs winning and binds "
              "them to the target's parameters; a cached key returns the stored class after any further calls. The model is "
